@@ -153,6 +153,8 @@ func (c16) Gen(seed uint64, run int, tier string) *Plan {
 			}
 			a := Action{Kind: "ladd", A: op, B: ni, C: kd}
 			switch kd {
+			case 2:
+				a.D = r.Intn(3) // 1: the route other External listeners ask for as well
 			case 0:
 				port := 1 + ni
 				if k["failstarts"] == 1 {
@@ -589,7 +591,11 @@ func (st *c16State) inject(a Action, pre []c16Entry) {
 		case 1:
 			info = map[string]any{"Name": name, "Protocol": "Smb", "PipeName": "pipe_" + name}
 		case 2:
-			info = map[string]any{"Name": name, "Protocol": "External", "Endpoint": "ep-" + name}
+			ep := "ep-" + name
+			if c16abs(a.D)%3 == 1 {
+				ep = "ep-shared" // two External listeners asking for the same route
+			}
+			info = map[string]any{"Name": name, "Protocol": "External", "Endpoint": ep}
 		case 3:
 			slot := c16l(a, 0) % c16max(1, st.p.Knob("slots", 1))
 			gen := 0
